@@ -17,7 +17,11 @@
 
 use crate::val::*;
 use crate::{exec, run_line, split_line, Machine};
-use pairing_plus::bls12_381::{FrRepr, G1, G2};
+use pairing_plus::bls12_381::{Fq12, FrRepr, G1Affine, G2Affine, G2Compressed, G1, G2};
+use pairing_plus::hash_to_curve::HashToCurve;
+use pairing_plus::hash_to_field::ExpandMsgXmd;
+use pairing_plus::serdes::SerDes;
+use pairing_plus::{CurveAffine, CurveProjective, EncodedPoint};
 use pairing_plus::verif_probe;
 use pairing_plus::Wnaf;
 use std::cell::Cell;
@@ -41,24 +45,28 @@ fn probe_cb(id: u32) {
         return;
     }
     let seq = SEQ.fetch_add(1, Ordering::Relaxed);
-    EVENTS.with(|e| {
+    // try_with: the probe also fires for library calls made during thread teardown, when the harness' own
+    // thread-locals may already be gone (then nothing is recorded and the schedule is not perturbed)
+    let _ = EVENTS.try_with(|e| {
         let mut e = e.borrow_mut();
         if e.len() < MAX_EVENTS_PER_THREAD {
             e.push((seq, id));
         }
     });
     // seeded schedule perturbation
-    let r = RNG.with(|c| {
-        let mut x = c.get();
-        if x == 0 {
-            return 0;
-        }
-        x ^= x << 13;
-        x ^= x >> 7;
-        x ^= x << 17;
-        c.set(x);
-        x
-    });
+    let r = RNG
+        .try_with(|c| {
+            let mut x = c.get();
+            if x == 0 {
+                return 0;
+            }
+            x ^= x << 13;
+            x ^= x >> 7;
+            x ^= x << 17;
+            c.set(x);
+            x
+        })
+        .unwrap_or(0);
     if r != 0 {
         if r % 8 == 0 {
             std::thread::yield_now();
@@ -69,6 +77,64 @@ fn probe_cb(id: u32) {
             }
         }
     }
+}
+
+/// Results of the library calls made from a thread-local destructor (thread teardown).
+static EXIT_OUT: Mutex<Vec<String>> = Mutex::new(Vec::new());
+
+/// Library calls made while the thread is being torn down (from the destructor of a caller-owned thread-local that was
+/// registered before the thread's first library call): a multi-scalar multiplication, a hash to G1, a G2
+/// decompression, a scalar multiplication and an Fq12 serialisation; the outputs are returned as one hex string.
+fn exit_calls() -> String {
+    let g1 = G1Affine::one();
+    let mut p2 = g1.into_projective();
+    p2.double();
+    let pts = [g1, p2.into_affine()];
+    let k0 = [0x1234_5678_9abc_def0u64, 7, 0, 1 << 62];
+    let k1 = [3u64, 0, 0xffff_ffff_ffff_ffff, 5];
+    let sc: Vec<&[u64; 4]> = vec![&k0, &k1];
+    let mut out: Vec<u8> = vec![];
+    if cfg!(miri) {
+        // interpreter-sized: no hashing (generic-array 0.12 is rejected by Miri, see DESIGN), no long ladders
+        out.extend_from_slice(G1Affine::sum_of_products_pippinger(&pts, &[&[3u64, 0, 0, 0], &[1u64, 0, 0, 0]], 2).into_affine().into_uncompressed().as_ref());
+        let _ = <Fq12 as ff_zeroize::Field>::one().serialize(&mut out, true);
+        return out.iter().map(|b| format!("{:02x}", b)).collect();
+    }
+    out.extend_from_slice(G1Affine::sum_of_products(&pts, &sc).into_affine().into_compressed().as_ref());
+    out.extend_from_slice(G1Affine::sum_of_products_pippinger(&pts, &sc, 3).into_affine().into_compressed().as_ref());
+    let h = <G1 as HashToCurve<ExpandMsgXmd<sha2::Sha256>>>::hash_to_curve(b"thread teardown", b"C20-exit");
+    out.extend_from_slice(h.into_affine().into_compressed().as_ref());
+    let c: G2Compressed = G2Affine::one().into_compressed();
+    match c.into_affine() {
+        Ok(a) => out.extend_from_slice(a.into_uncompressed().as_ref()),
+        Err(_) => out.push(0xee),
+    }
+    let mut q = G2Affine::one().into_projective();
+    q.mul_assign(FrRepr(k1));
+    out.extend_from_slice(q.into_affine().into_compressed().as_ref());
+    let _ = <Fq12 as ff_zeroize::Field>::one().serialize(&mut out, true);
+    let mut s = String::with_capacity(out.len() * 2);
+    for b in out {
+        s.push_str(&format!("{:02x}", b));
+    }
+    s
+}
+
+struct ExitGuard {
+    armed: bool,
+    round: usize,
+    t: usize,
+}
+impl Drop for ExitGuard {
+    fn drop(&mut self) {
+        if self.armed {
+            let r = exit_calls();
+            EXIT_OUT.lock().unwrap().push(format!("T {} {} {}", self.round, self.t, r));
+        }
+    }
+}
+thread_local! {
+    static EXIT_GUARD: std::cell::RefCell<ExitGuard> = std::cell::RefCell::new(ExitGuard { armed: false, round: 0, t: 0 });
 }
 
 struct Shared<'a> {
@@ -200,6 +266,7 @@ pub fn run<W: Write>(lines: &[String], log: &mut W, threads: usize, rounds: usiz
     };
     if !baseline_last {
         baseline(log);
+        writeln!(log, "TS {}", exit_calls()).unwrap();
     }
 
     // (2) threads
@@ -212,6 +279,7 @@ pub fn run<W: Write>(lines: &[String], log: &mut W, threads: usize, rounds: usiz
         let barrier = Barrier::new(threads);
         let evs: Mutex<Vec<(u64, u32, u32)>> = Mutex::new(Vec::new());
         std::thread::scope(|scope| {
+            let mut handles = Vec::with_capacity(threads);
             for t in 0..threads {
                 let ops = &ops;
                 let sh = &sh;
@@ -219,7 +287,15 @@ pub fn run<W: Write>(lines: &[String], log: &mut W, threads: usize, rounds: usiz
                 let evs = &evs;
                 let barrier = &barrier;
                 let shared_regs = shared_regs.clone();
-                scope.spawn(move || {
+                handles.push(scope.spawn(move || {
+                    // registered before the thread's first library call, hence destroyed after anything the library
+                    // may register lazily on this thread
+                    EXIT_GUARD.with(|g| {
+                        let mut g = g.borrow_mut();
+                        g.armed = true;
+                        g.round = round;
+                        g.t = t;
+                    });
                     TID.with(|c| c.set(t as u32));
                     let seed = yseed
                         .wrapping_mul(0x9E3779B97F4A7C15)
@@ -247,9 +323,16 @@ pub fn run<W: Write>(lines: &[String], log: &mut W, threads: usize, rounds: usiz
                     let mine: Vec<(u64, u32, u32)> =
                         EVENTS.with(|e| e.borrow().iter().map(|(s, p)| (*s, t as u32, *p)).collect());
                     evs.lock().unwrap().extend(mine);
-                });
+                }));
+            }
+            // explicit joins: wait for the threads to be gone altogether, thread-local destructors included
+            for h in handles.drain(..) {
+                let _ = h.join();
             }
         });
+        for l in EXIT_OUT.lock().unwrap().drain(..) {
+            writeln!(log, "{}", l).unwrap();
+        }
         RECORD.store(false, Ordering::Relaxed);
         for l in out.lock().unwrap().drain(..) {
             writeln!(log, "{}", l).unwrap();
@@ -276,6 +359,7 @@ pub fn run<W: Write>(lines: &[String], log: &mut W, threads: usize, rounds: usiz
     }
     if baseline_last {
         baseline(log);
+        writeln!(log, "TS {}", exit_calls()).unwrap();
     }
     writeln!(log, "END").unwrap();
 }
